@@ -13,5 +13,5 @@ Extraction "../ocaml/model.ml"
   least_significant_bit_set
   null_pad cut_nul enc_vlrs dec_vlrs enc_header dec_header file_of wopen wstep wrun aopen apoints aclose arun
   read_file read_records compat std_size
-  crun srun
+  crun srun stats_of
   sf_assign sf_get sf_assign_arr sf_cmp_fast sf_cmp_spec sf_max all_sub_fields.
